@@ -192,6 +192,27 @@ func actDeriveChild(e *Env, a J) J {
 			return J{"err": true, "errmsg": "NewChildSAKeyByProposal: " + err.Error()}
 		}
 		c = c2
+		// before this Child SA is keyed the next negotiation comes in (another ESP proposal: other key size, other integrity
+		// algorithm) and gets its own object -- which is none of this one's business
+		if p2, err := c.ToProposal(); err == nil {
+			alt := map[int]int{128: 256, 192: 128, 256: 192}[gi(a, "encr")]
+			if t2, err := encr.ToTransformChildSA(encr.StrToKType(encrNames[alt])); err == nil && t2 != nil {
+				p2.EncryptionAlgorithm = message.TransformContainer{t2}
+			}
+			if n := gs(a, "integ"); n != "" && n != "none" {
+				other := map[string]string{"md5": "sha256", "sha1": "md5", "sha256": "sha1"}[n]
+				p2.IntegrityAlgorithm = message.TransformContainer{integ.ToTransformChildSA(integ.StrToKType(integNames[other]))}
+			}
+			sa3 := &message.SecurityAssociation{Proposals: message.ProposalContainer{p2}}
+			if b3, err := sa3.Marshal(); err == nil {
+				sa4 := new(message.SecurityAssociation)
+				if sa4.Unmarshal(b3) == nil {
+					if decoy, err := security.NewChildSAKeyByProposal(sa4.Proposals[0]); err == nil && decoy != nil {
+						defer func() { _ = decoy.GenerateKeyForChildSA(o.key, []byte{1, 2, 3}) }()
+					}
+				}
+			}
+		}
 	}
 	err := c.GenerateKeyForChildSA(o.key, []byte(gox(a, "nonce")))
 	obs := errObs(err)
@@ -355,10 +376,65 @@ func actNewIkeSA(e *Env, a J) J {
 		obs["pub"] = octOf(pub)
 		obs["publen"] = len(pub)
 		obs["repeat"] = seenPub(e, pub)
+		// before the caller looks at its new SA the next IKE_SA_INIT is answered (another suite, another group): its own object
+		if pj2 := decoyIkeProposal(pj); pj2 != nil {
+			if pl2, err := buildPayload(J{"k": "SA", "props": []any{pj2}}); err == nil {
+				_, _, _ = security.NewIKESAKey(pl2.(*message.SecurityAssociation).Proposals[0], fillPattern("seeded", 128, 5), fillPattern("seeded", 20, 6), 7, 8)
+			}
+		}
 		keyObs(k, a, obs)
 		registerSA(e, gs(a, "name"), k, gj(a, "suite"))
 	}
 	return obs
+}
+
+// decoyIkeProposal: the proposal with every transform replaced by ANOTHER supported one of its type (nil if it has a transform
+// the harness has no alternative for)
+func decoyIkeProposal(pj J) J {
+	trs, _ := pj["tr"].([]any)
+	if len(trs) == 0 {
+		return nil
+	}
+	var out []any
+	for _, x := range trs {
+		t, ok := x.(J)
+		if !ok {
+			return nil
+		}
+		n := J{}
+		for k, v := range t {
+			n[k] = v
+		}
+		switch gi(t, "tt") {
+		case 1:
+			if gi(t, "tid") != 12 || gs(t, "attr") != "tv" {
+				return nil
+			}
+			n["av"] = map[int]int{128: 256, 192: 128, 256: 192}[gi(t, "av")]
+			if n["av"] == 0 {
+				return nil
+			}
+		case 2:
+			n["tid"] = map[int]int{1: 5, 2: 1, 5: 2}[gi(t, "tid")]
+			if n["tid"] == 0 {
+				return nil
+			}
+		case 3:
+			n["tid"] = map[int]int{1: 12, 2: 1, 12: 2}[gi(t, "tid")]
+			if n["tid"] == 0 {
+				return nil
+			}
+		case 4:
+			n["tid"] = map[int]int{2: 14, 14: 2}[gi(t, "tid")]
+			if n["tid"] == 0 {
+				return nil
+			}
+		default:
+			return nil
+		}
+		out = append(out, n)
+	}
+	return J{"num": 1, "proto": 1, "spi": Oct{}, "tr": out}
 }
 
 // ---------------------------------------------------------------------------------------- Diffie-Hellman, random numbers
